@@ -147,6 +147,12 @@ pub enum Op {
     IntoIter { take: usize },
     /// C04's wording, executed on the map itself: insert capacity()-len() unseen keys `start..`
     FillProbe { start: u64 },
+    /// `insert(k, v)` under a `Hash` that panics on its `fuse`-th invocation within the call (caught)
+    FInsert { k: u64, v: u64, fuse: usize },
+    /// `retain` whose closure panics on entering its `fuse`-th call (caught)
+    FRetain { p: Pred, fuse: usize },
+    /// `entry(k)`, and if occupied `replace_entry_with` with a closure that panics (caught)
+    FReplace { k: u64 },
     Drop,
 }
 
@@ -186,6 +192,9 @@ pub fn fmt_op(mid: usize, op: &Op) -> String {
         ),
         Op::IntoIter { take } => format!("intoiter {mid} {take}"),
         Op::FillProbe { start } => format!("fillprobe {mid} {start}"),
+        Op::FInsert { k, v, fuse } => format!("finsert {mid} {k} {v} {fuse}"),
+        Op::FRetain { p, fuse } => format!("fretain {mid} {} {fuse}", p.fmt()),
+        Op::FReplace { k } => format!("freplace {mid} {k}"),
         Op::Drop => format!("drop {mid}"),
     }
 }
@@ -237,6 +246,9 @@ pub fn parse_op(line: &str) -> Option<Line> {
         }
         "intoiter" => Op::IntoIter { take: z(2)? },
         "fillprobe" => Op::FillProbe { start: u(2)? },
+        "finsert" => Op::FInsert { k: u(2)?, v: u(3)?, fuse: z(4)? },
+        "fretain" => Op::FRetain { p: Pred::parse(t.get(2)?)?, fuse: z(3)? },
+        "freplace" => Op::FReplace { k: u(2)? },
         "drop" => Op::Drop,
         _ => return None,
     };
@@ -473,6 +485,8 @@ impl World {
         let mut loc_class: &'static str = "-";
         let mut key_adding = false; // the call added a key (or overwrote one in the old table)
         let mut readonly = false; // lookup / removal / in-place update
+        let mut survives = false; // an injected panic the map is specified to survive
+        let mut lost_keys: Vec<u64> = vec![]; // elements a fused call is allowed to have dropped
         let kind: String = head.split_whitespace().next().unwrap().to_string();
 
         macro_rules! take_cr {
@@ -1232,6 +1246,116 @@ impl World {
                 }
                 self.split_track[mid] = None;
             }
+            Op::FInsert { k, v, fuse } => {
+                loc_class = class_of(self, *k);
+                let pre_old: Vec<u64> = old_keys(self.maps[mid].as_ref().unwrap());
+                let key = Key::new(*k);
+                let val = Val::new(*v);
+                let (kid, vid) = (key.id, val.id);
+                head = format!("finsert {mid} {k} {kid} {v} {vid} {fuse}");
+                let m = self.maps[mid].as_mut().unwrap();
+                arm_fuse(*fuse as i64, HASH);
+                let cr = windowed(|| m.insert(key, val));
+                let fired = fuse_fired();
+                disarm_fuse();
+                survives = true;
+                let res = take_cr!(cr);
+                let r = self.refs[mid].as_mut().unwrap();
+                let expect = r.get(k).map(|e| (e.1, e.2));
+                if !(fired && *fuse == 0) {
+                    // the insertion / replacement itself precedes every re-hash
+                    match r.get_mut(k) {
+                        Some(e) => {
+                            e.1 = *v;
+                            e.2 = vid;
+                        }
+                        None => {
+                            r.insert(*k, (kid, *v, vid));
+                        }
+                    }
+                }
+                key_adding = !fired && (expect.is_none() || loc_class.starts_with("old"));
+                if fired != panic_kind.is_some() {
+                    self.fail(&["C07"], format!("finsert: fuse fired = {fired} but the call {}", if panic_kind.is_some() { "panicked" } else { "returned" }));
+                }
+                if let Some(res) = res {
+                    ret = optv_fmt(res.as_ref());
+                    let got = res.as_ref().map(|x| (x.v, x.id));
+                    if got != expect {
+                        self.fail(&["C01"], format!("insert({k}) returned {got:?}, reference {expect:?}"));
+                    }
+                    if let Some(x) = res {
+                        returned.push(x.id);
+                        drop(x);
+                    }
+                }
+                // documented loss: the element being relocated when `Hash` panicked, nothing else
+                let m = self.maps[mid].as_ref().unwrap();
+                let r = self.refs[mid].as_mut().unwrap();
+                lost_keys = r.keys().copied().filter(|x| m.get(&Q(*x)).is_none()).collect();
+                for x in &lost_keys {
+                    r.remove(x);
+                }
+                // (an insert that grows parks the whole main table first: then any previous element may be the one)
+                let ok = lost_keys.len() <= (fired && *fuse > 0) as usize && lost_keys.iter().all(|x| (x != k || expect.is_some()) && (da >= 1 || pre_old.contains(x)));
+                if !ok {
+                    let lk = lost_keys.clone();
+                    self.fail(&["C07"], format!("a Hash panic at invocation {fuse} of insert lost keys {lk:?} (allowed: at most the one old-table element being moved)"));
+                }
+            }
+            Op::FRetain { p, fuse } => {
+                let mut calls: Vec<u64> = vec![];
+                let m = self.maps[mid].as_mut().unwrap();
+                let order: Vec<u64> = m.iter().map(|(k, _)| k.k()).collect();
+                orc.push(format!("calls={}", keys_fmt(&order)));
+                arm_fuse(*fuse as i64, CLOSURE);
+                let cr = windowed(|| {
+                    m.retain(|k, v| {
+                        calls.push(k.k());
+                        tick(CLOSURE);
+                        v.v += p.add;
+                        p.test(k.k())
+                    })
+                });
+                let fired = fuse_fired();
+                disarm_fuse();
+                survives = true;
+                let _ = take_cr!(cr);
+                // the visits before the panicking one completed; nothing else was touched
+                let done = (*fuse).min(order.len());
+                let r = self.refs[mid].as_mut().unwrap();
+                for k in &order[..done] {
+                    if let Some(e) = r.get_mut(k) {
+                        e.1 += p.add;
+                    }
+                    if !p.test(*k) {
+                        r.remove(k);
+                    }
+                }
+                let want_calls = &order[..(*fuse + 1).min(order.len())];
+                if calls != want_calls || fired != (*fuse < order.len()) || fired != panic_kind.is_some() {
+                    self.fail(&["C07", "C09"], format!("retain with a closure panicking at call {fuse}: f was called on {} keys, expected the first {} of the iteration order", calls.len(), want_calls.len()));
+                }
+            }
+            Op::FReplace { k } => {
+                loc_class = class_of(self, *k);
+                let key = Key::new(*k);
+                let kid = key.id;
+                head = format!("freplace {mid} {k} {kid}");
+                let m = self.maps[mid].as_mut().unwrap();
+                let cr = windowed(|| {
+                    if let griddle::hash_map::Entry::Occupied(o) = m.entry(key) {
+                        let _ = o.replace_entry_with(|_, _| -> Option<Val> { panic!("injected (closure)") });
+                    }
+                });
+                survives = true;
+                let _ = take_cr!(cr);
+                let r = self.refs[mid].as_mut().unwrap();
+                let was = r.remove(k).is_some();
+                if was != panic_kind.is_some() {
+                    self.fail(&["C07"], format!("replace_entry_with on key {k} (present = {was}): closure {}", if was { "was not called" } else { "was called" }));
+                }
+            }
             Op::FillProbe { .. } => unreachable!(),
             Op::Drop => {
                 let m = self.maps[mid].take().unwrap();
@@ -1250,7 +1374,7 @@ impl World {
         if let (Some(po), Some(m)) = (&post, self.maps[mid].as_ref()) {
             // a growth happened iff this (inserting / reserving) call allocated a table while the map
             // held elements: they were all parked, in the order hashbrown iterates them
-            let new_split = matches!(op, Op::Insert { .. } | Op::Entry { .. } | Op::Reserve { .. } | Op::TryReserve { .. })
+            let new_split = matches!(op, Op::Insert { .. } | Op::FInsert { .. } | Op::Entry { .. } | Op::Reserve { .. } | Op::TryReserve { .. })
                 && da >= 1
                 && pre.as_ref().map_or(false, |p| p.len > 0);
             let _ = po;
@@ -1261,12 +1385,14 @@ impl World {
                 // the old table were moved first (their relative order is immaterial)
                 let mut all: Vec<u64> = match op {
                     // the key being inserted was absent when the table was parked (else: no insertion)
-                    Op::Insert { k, .. } | Op::Entry { k, .. } => self.refs[mid].as_ref().unwrap().keys().copied().filter(|x| x != k).collect(),
+                    Op::Insert { k, .. } | Op::FInsert { k, .. } | Op::Entry { k, .. } => self.refs[mid].as_ref().unwrap().keys().copied().filter(|x| x != k).collect(),
                     Op::Extend { .. } => vec![],
                     _ => self.refs[mid].as_ref().unwrap().keys().copied().collect(),
                 };
                 let okset: std::collections::BTreeSet<u64> = ok.iter().copied().collect();
                 all.retain(|k| !okset.contains(k));
+                // an element dropped mid-move was parked too: it is the one after those that made it
+                all.extend_from_slice(&lost_keys);
                 all.extend_from_slice(&ok);
                 orc.push(format!("perm={}", keys_fmt(&all)));
                 let l_at_split = all.len();
@@ -1342,7 +1468,9 @@ impl World {
                 }
             }
             // the model keeps no state for a panicked map: take it out of the lock-step
-            if let Some(m) = self.maps[mid].take() {
+            // … except where the map is specified to survive the panic: carry on with it
+            if survives && p == "injected" {
+            } else if let Some(m) = self.maps[mid].take() {
                 self.refs[mid] = None;
                 self.split_track[mid] = None;
                 let documented = p == "injected" || (p == "capacity_overflow" && matches!(op, Op::Reserve { .. } | Op::New { .. } | Op::Extend { .. }));
@@ -1358,7 +1486,9 @@ impl World {
                     self.transcript.push(format!("forget {mid} | | "));
                 }
             }
-            return;
+            if !(survives && p == "injected") {
+                return;
+            }
         }
         if let (Some(po), Some(m)) = (&post, self.maps[mid].as_ref()) {
             let r = self.refs[mid].as_ref().unwrap();
